@@ -75,9 +75,17 @@ func (s *kState) FindView(h uint64, r uint32, reason string) (*tmconsensus.Versi
 		if r < cr {
 			return nil, 0, ViewBeforeCommitting
 		}
+
+		// A later round at the committing height:
+		// that height is already being committed in round cr,
+		// so this round can never be the committing round.
+		return nil, 0, ViewWrongCommit
 	}
 
-	if h < s.Committing.Height {
+	if h < s.Voting.Height {
+		// Below the voting height and not the committing height
+		// (which includes every height below the initial height
+		// while there is no committing view yet).
 		return nil, 0, ViewBeforeCommitting
 	}
 
